@@ -32,3 +32,33 @@ Definition assemble_obs (c : list (N * text * option text) * (bool * bool * bool
                              if k =? 2 then ctx_break cx
                              else ctx_field (if k =? 1 then Some nm else None) res cx)
                steps ctx0).
+
+From Vicut Require Import Model.Drivers.
+
+(** Driver observation: the unit function is a finite table (what the hook
+    recorded for each unit that ran); a unit without an entry failed. *)
+Fixpoint unit_lookup (tbl : list (option text * text * list record)) (dflt : outcome (list record))
+         (f : option text) (t : text) : outcome (list record) :=
+  match tbl with
+  | [] => dflt
+  | (f', t', r) :: tbl' =>
+    if (match f, f' with
+        | Some a, Some b => text_eqb a b
+        | None, None => true
+        | _, _ => false end) && text_eqb t t'
+    then Ok r else unit_lookup tbl' dflt f t
+  end.
+
+Definition fs_obs (fs : fsys) : list (text * option text) :=
+  map (fun po => (fst po, match snd po with FText t => Some t | FBad => None end)) fs.
+Definition fs_of_obs (l : list (text * option text)) : fsys :=
+  map (fun po => (fst po, match snd po with Some t => FText t | None => FBad end)) l.
+
+Definition driver_obs
+  (c : (N * text * bool * bool * bool * list text) * (bool * bool * bool) * text
+       * list (text * option text) * list (option text * text * list record)) :=
+  let '((fk, farg, json, inplace, backup, files), (linewise, serial, dflt_panic), input, fs, tbl) := c in
+  let o := mkDO (fmt_of fk farg) json inplace backup files in
+  let dflt := if dflt_panic then Panic P_other else Exit1 in
+  let '(s, st) := run_main (unit_lookup tbl dflt) o linewise serial input (mkD (fs_of_obs fs) []) in
+  (fs_obs (d_fs s), d_out s, match st with Done => 0 | Failed false => 1 | Failed true => 2 end).
